@@ -237,6 +237,9 @@ class ECDSAKey(PKey):
             return False
         sig = msg.get_binary()
         sigR, sigS = self._sigdecode(sig)
+        if sigR is None:
+            # bytes after the two mpints: not a well-formed ECDSA signature
+            return False
         try:
             signature = encode_dss_signature(sigR, sigS)
         except ValueError:
@@ -352,4 +355,6 @@ class ECDSAKey(PKey):
         msg = Message(sig)
         r = msg.get_mpint()
         s = msg.get_mpint()
+        if msg.get_remainder():
+            return None, None
         return r, s
